@@ -58,6 +58,10 @@ def emit_expr(e):
         return u8(OP['PUSH_SLOT_ATTR'], SLAT[e[2]], e[1])                 # (slot offset, NAME)
     if k == 'feat':
         return u8(OP['PUSH_FEAT'], e[2], e[1])                            # (slot offset, feature index)
+    if k == 'rawsattr':
+        return u8(OP['PUSH_SLOT_ATTR'], e[2], e[1])                       # (slot offset, attribute NUMBER): any slot attribute code
+    if k == 'rawisattr':
+        return u8(OP['PUSH_ISLOT_ATTR'], e[2], e[1], e[3])                # (slot offset, attribute number, index)
     if k == 'not':
         return emit_expr(e[1]) + u8(OP['NOT'])
     if k == 'neg':
@@ -87,6 +91,12 @@ def emit_action(a, ins=0):
         return emit_expr(a[2]) + u8(OP['ATTR_ADD'], SLAT[a[1]])
     if k == 'iattr':
         return emit_expr(a[3]) + u8(OP['IATTR_SET'], SLAT[a[1]], a[2])
+    if k == 'rawattr':
+        # (opcode name, attribute NUMBER, index or None, expr): every slot attribute code the loader lets through, incl. the
+        # justification attributes of levels the font does not have and the collision / sequence attributes
+        if a[1].startswith('IATTR'):
+            return emit_expr(a[4]) + u8(OP[a[1]], a[2], a[3] or 0)
+        return emit_expr(a[4]) + u8(OP[a[1]], a[2])
     if k == 'user':
         return emit_expr(a[2]) + u8(OP['IATTR_SET'], SLAT['UserDefn'], a[1])
     if k == 'attach':
